@@ -146,7 +146,10 @@ static void run_thread(W& w, W& other, const std::vector<Cycle>& script, bool en
                     if (cc.form == Q_TRY) return w.try_lock();
                     if constexpr (is_timed<M>) {
                         if (cc.form == Q_TRY_FOR) return w.try_lock_for(dur);
-                        if (cc.form == Q_TRY_UNTIL) return w.try_lock_until(std::chrono::steady_clock::now() + dur);
+                        if (cc.form == Q_TRY_UNTIL) {  // the deadline may be given on any clock
+                            if (cc.hold % 2) return w.try_lock_until(std::chrono::system_clock::now() + dur);
+                            return w.try_lock_until(std::chrono::steady_clock::now() + dur);
+                        }
                     }
                     return w.lock();
                 };
@@ -187,7 +190,10 @@ static void run_thread(W& w, W& other, const std::vector<Cycle>& script, bool en
                     if (cc.form == Q_TRY) return w.try_lock_shared();
                     if constexpr (is_timed<M>) {
                         if (cc.form == Q_TRY_FOR) return w.try_lock_shared_for(dur);
-                        if (cc.form == Q_TRY_UNTIL) return w.try_lock_shared_until(std::chrono::steady_clock::now() + dur);
+                        if (cc.form == Q_TRY_UNTIL) {
+                            if (cc.hold % 2) return w.try_lock_shared_until(std::chrono::system_clock::now() + dur);
+                            return w.try_lock_shared_until(std::chrono::steady_clock::now() + dur);
+                        }
                     }
                     return w.lock_shared();
                 };
